@@ -122,8 +122,10 @@ class ObligationClient(Client):
                 ns = s - {('temp', did)}
             elif self.eng.handler_depth > 0:
                 ns = frozenset(o for o in s if o[0] != 'raw')
+            else:
+                ns = s | {('dead',)}       # elements inside [begin, end) are gone: the size must follow before anything can throw
         elif kind == 'commit':
-            ns = frozenset(o for o in s if o[0] != 'raw')
+            ns = frozenset(o for o in s if o[0] not in ('raw', 'dead'))
         out.append(('n', ns))
         return out
 
@@ -145,6 +147,8 @@ def obligations(progs, rule_filter=None):
                                    '(shift_left / uninitialized_shift_left + rethrow) on every exceptional path'),
         'TEMP': RuleResult('TEMP', 'an object constructed in a local ElemStorage is destroyed or relocated on every exit, including the '
                                    'exceptional successor of each may-throw call in between'),
+        'DEAD-TAIL': RuleResult('DEAD-TAIL', 'between the destruction of elements that are still counted by size() and the size commit that stops counting them no '
+                                             'may-throw call runs: an exception never leaves destroyed elements inside [begin, end)'),
         'RAWTAIL': RuleResult('RAWTAIL', 'between a construct into raw storage and the size commit covering it no may-throw call runs '
                                          'outside a handler that destroys the new objects'),
     }
@@ -157,7 +161,8 @@ def obligations(progs, rule_filter=None):
                 continue    # the closers only run while an exception is being handled: a throw there is a second fault
             body = f['body']
             # only functions that contain a relevant primitive
-            prims = [n for n in A.calls(body) if R.role(n)[0] in ('hole_open', 'hole_raw', 'hole_consume', 'hole_close', 'construct')] + \
+            prims = [n for n in A.calls(body) if R.role(n)[0] in ('hole_open', 'hole_raw', 'hole_consume', 'hole_close', 'construct') or
+                     (R.role(n)[0] == 'destroy' and f.get('clsq') in VEC_CLASSES[:4])] + \
                     [n for n in walk(body) if n.get('k') == 'new' and n.get('reserved_placement')]
             if not prims:
                 continue
@@ -174,6 +179,8 @@ def obligations(progs, rule_filter=None):
                 if kd == 'construct' or n.get('k') == 'new':
                     d = R.dest_arg(n) if n.get('k') == 'call' else (n.get('placement') or [None])[0]
                     kinds_present.add('TEMP' if (d is not None and R.elem_storage_local(d) is not None) else 'RAWTAIL')
+            if f.get('clsq') in VEC_CLASSES[:4] and any(R.role(n)[0] == 'destroy' for n in A.calls(body)):
+                kinds_present.add('DEAD-TAIL')
             for kp in kinds_present:
                 res[kp].instance('%s|%s' % (kp, site_base), {'function': f['pname'][:150], 'unit': prog.uname,
                                                              'normal_exit_states': len(o.normal) + len(o.returns),
@@ -209,6 +216,11 @@ def obligations(progs, rule_filter=None):
                         res['TEMP'].add(Finding('TEMP', '%s|throw|%s' % (f['key'], tshort), site,
                                                 '%s may throw while the object built in a local ElemStorage is alive and no handler destroys it (leak)'
                                                 % tdesc[:120], where=f['pname'], unit=prog.uname))
+                    elif ob[0] == 'dead' and f.get('clsq') in VEC_CLASSES[:4]:
+                        res['DEAD-TAIL'].add(Finding('DEAD-TAIL', '%s|throw|%s' % (f['key'], tshort), site,
+                                                     '%s may throw after elements still counted by size() were destroyed and before the size is updated: the '
+                                                     'container is left with destroyed elements inside [begin, end) (they are destroyed again later)' % tdesc[:120],
+                                                     where=f['pname'], unit=prog.uname))
                     elif ob[0] == 'raw':
                         res['RAWTAIL'].add(Finding('RAWTAIL', '%s|throw|%s' % (f['key'], tshort), site,
                                                    '%s may throw after objects were constructed in raw storage that no size commit covers and no handler '
@@ -716,7 +728,10 @@ class AliasClient(Client):
         moving = kind in ('hole_open', 'hole_raw', 'erase', 'destroy') or \
             (kind == 'construct' and det in ('uninitialized_relocate', 'uninitialized_relocate_n', 'relocate_at', 'move_n', 'uninitialized_move', 'uninitialized_move_n')) or \
             (kind == 'assign' and det in ('move', 'move_backward', 'swap_ranges')) or \
-            (kind == 'check' and det in ('grow',))
+            (kind == 'check' and det in ('grow',)) or \
+            (n.get('k') == 'call' and n.get('method') and n.get('amc') and A.cshort(n) in ('clear', 'erase', 'pop_back', 'pop_back_val', 'resize', 'shrink_to_fit',
+                                                                                          'destroyFreeStorage', 'freeStorage', 'resetToSmall', 'shrink')
+             and (n.get('obj') is None or A.root(n.get('obj'), {})[0] == 'this'))
         if kind == 'check' and det in ('adjustCapacity', 'reserve'):
             # may reallocate: the original references are dead afterwards; a reference *returned* by the re-basing
             # overloads is fresh (REBASE checks that overload)
